@@ -63,6 +63,7 @@ struct Inspector {
     const ArduinoJson::JsonDocument& d;
     std::map<size_t, int> linked, ext;           // slot id -> number of uses
     std::map<const StringNode*, int> stringUses;  // node -> users found in the tree
+    std::map<const StringNode*, int> rawUses;     // node -> users that are raw values (serialized(), MsgPackBinary, MsgPackExtension)
     std::map<const StringNode*, int> nodeIndex;
     std::string key, errors;
     size_t budget = 200000;
@@ -93,6 +94,7 @@ struct Inspector {
             key += "=S?";
           } else {
             stringUses[n]++;
+            if (v->type_ == VT::RawString) rawUses[n]++;
             key += "=S" + std::to_string(it->second);
           }
           break;
@@ -162,14 +164,9 @@ struct Inspector {
       w.nodeIndex[n] = idx++;
       nodes.push_back(n);
       spool += "\"" + vis(std::string(n->data, n->length)) + "\"x" + std::to_string(unsigned(n->references)) + ",";
-      if (n->data[n->length] != 0) w.errors += "string node not NUL-terminated; ";
     }
     spool += ")";
     r.stringNodes = nodes.size();
-    for (size_t i = 0; i < nodes.size(); i++)
-      for (size_t j = 0; j < i; j++)
-        if (nodes[i]->length == nodes[j]->length && memcmp(nodes[i]->data, nodes[j]->data, nodes[i]->length) == 0)
-          w.errors += "two string nodes hold equal bytes (de-duplication missed); ";
     // pools
     std::string pools = "P(";
     size_t used = 0;
@@ -204,6 +201,22 @@ struct Inspector {
     fl += ")";
     // tree
     w.variant(&d.data_, 0);
+    {
+      // the terminator and the "equal copied strings are stored once" promise concern nodes that some value uses as a STRING;
+      // a node used only by raw values (MsgPackBinary / MsgPackExtension built through the API are stored without a
+      // terminator and without a look-up) is outside both
+      auto rawOnly = [&](const StringNode* n) {
+        int all = w.stringUses.count(n) ? w.stringUses[n] : 0, raw = w.rawUses.count(n) ? w.rawUses[n] : 0;
+        return all > 0 && all == raw;
+      };
+      for (const StringNode* n : nodes)
+        if (!rawOnly(n) && n->data[n->length] != 0) w.errors += "string node not NUL-terminated; ";
+      for (size_t i = 0; i < nodes.size(); i++)
+        for (size_t j = 0; j < i; j++)
+          if (nodes[i]->length == nodes[j]->length && memcmp(nodes[i]->data, nodes[j]->data, nodes[i]->length) == 0 &&
+              !rawOnly(nodes[i]) && !rawOnly(nodes[j]))
+            w.errors += "two string nodes hold equal bytes (de-duplication missed); ";
+    }
     // slot accounting: every used slot is exactly one of linked / extension / free
     if (!res.overflowed_) {
       for (size_t p = 0; p < size_t(pl.count_); p++) {
